@@ -376,11 +376,12 @@ def builder_table(text):
 
     def leaf(t, where):
         push, dup, over = ".push(" in re.sub(r"\s+", "", t), "duplicate_field" in t, re.search(r"=\s*Some\s*\(", t)
-        if dup and over and not push:
+        guarded = re.search(r"\bNone\s*=>", t)      # `match slot { None => slot = Some(..), _ => .. }`
+        if dup and over and guarded and not push:
             return "DvDupError"
         if push and not dup and not over:
             return "DvPush"
-        if over and not dup and not push:
+        if over and not dup and not push and not guarded:
             return "DvOverwrite"
         raise TErr("translator cannot parse jomini_derive/src/lib.rs: builder_fields: the arm generated for %s (push / `= Some(` / duplicate_field)" % where)
 
@@ -529,7 +530,11 @@ def facts(src):
     add("dv_str_fallthrough_ignore", "bool", b(sign))
     add("dv_u16_fallthrough_ignore", "bool", b(bool(tign)))
     sarm = block(svar, "field_enum_match")
-    if re.search(r"(?<![\w.])alias\s*\(\s*&?\w+\s*\)\s*\.\s*unwrap_or(_else)?\s*\(", sarm):
+    ma = re.search(r"\blet\s+(\w+)\s*=\s*alias\s*\(\s*&?\w+\s*\)\s*\.\s*unwrap_or(_else)?\s*\(", sarm)
+    if ma:
+        # the arm must be exactly `#<that string> => Ok(#field)`: no second pattern beside it
+        need(re.search(r"quote!\s*\{\s*#%s\s*=>\s*Ok\s*\(\s*#\w+\s*\)\s*,?\s*\}" % re.escape(ma.group(1)), sarm),
+             "field_enum_match: the arm `#%s => Ok(#field)`" % ma.group(1))
         arm = "DvArmAliasElseName"
     elif not re.search(r"(?<![\w.])alias\s*\(", sarm):
         arm = "DvArmName"
